@@ -172,7 +172,9 @@ func (a *Allocator) TrimTo(max int) {
 			break
 		}
 		alloc += len(b)
-		if alloc < max {
+		// Always keep the first buffer: addBufferAt sizes a new buffer from its
+		// predecessor, so an allocator without it could never grow again.
+		if alloc < max || i == 0 {
 			continue
 		}
 		Free(b)
